@@ -56,6 +56,10 @@ def all_none(E, path, v, depth=0):
     k = E.variant_known(path.facts, v) if v[0] in ('ret', 'init', 'field') else None
     if k and k[0] == 'eq' and k[1] in ('Pending', 'None'):
         return True
+    # an Err(..) of the crate's payload-free error enums carries no payload (TryReceiveError::Empty / Closed)
+    if v[0] == 'agg' and v[1] == 'std::result::Result' and v[2] == 'Err' and v[3] and \
+            v[3][0][1][0] == 'agg' and v[3][0][1][1] == 'channel::error::TryReceiveError':
+        return True
     if v[0] == 'tuple':
         return all(all_none(E, path, x, depth + 1) or not _may_hold(x) for x in v[1])
     if v[0] == 'agg' and v[1] == 'std::task::Poll':
